@@ -1,9 +1,9 @@
 CONSTANT Families = {"basis", "sweep", "masks", "zerow", "general", "history", "tset"}
 CONSTANT Dens = {1, 2, 3, 4, 5, 6, 7, 8}
 CONSTANT CoefSel = "full"
-CONSTANT XIds = {1, 2, 3, 4, 5, 6}
+CONSTANT XIds = {1, 2, 3, 4, 5, 6, 7}
 CONSTANT ZIds = {1, 3}
-CONSTANT HIds = {1, 3, 5}
+CONSTANT HIds = {1, 3, 7}
 CONSTANT Lays = {1, 2, 3, 4, 5}
 CONSTANT Mod = 1
 CONSTANT TsMod = 3
